@@ -308,6 +308,11 @@ def variants(ctx, fmt):
         lst.append(dict(base, n=2, count=2, epoch=2, start=(1992, 252, 1000)))
         lst.append(dict(base, n=2, count=2, epoch=2, start=(1994, 319, 86399000)))
         lst.append(dict(base, n=2, count=2, epoch=3, start=(1994, 320, 0)))
+    # the header's record count UNDER-reports the file by several hundred records (a file extended after its header was
+    # written): every record that is there is read, whatever the count says
+    lst.append(dict(base, n=300, count=rng_n(3) * 10, mode="bit", bit0=ctx.rng.randrange(8 * 64)))
+    if ctx.thorough or getattr(ctx, "escalated", False):
+        lst.append(dict(base, n=700, count=60, mode="bit", bit0=ctx.rng.randrange(8 * 64), archive=(fam == "pod")))
     nb = ctx.n(16, 64)
     total_bits = None
     L = spec_layouts(ctx)
